@@ -2,6 +2,7 @@ import Mps.Json
 import Mps.Drv.Frame
 import Mps.Drv.Handler
 import Mps.Drv.Session
+import Mps.Drv.TwoParty
 /-
   mpsdriver: reads the harness' JSON lines on stdin, answers one line per operation with what
   the MODEL says: {"id":N,"model":{...}}. Core-only (no Mathlib below this file).
@@ -10,10 +11,12 @@ open Lean Mps
 
 structure DState where
   handler : Mps.Drv.Handler.Store := []
+  twoparty : Mps.Drv.TwoParty.Store2 := []
 
 def dispatch (st : DState) (suite op : String) (inp : Json) : DState × Json :=
   match suite with
   | "frame" => (st, Mps.Drv.Frame.handle op inp)
+  | "twoparty" => let (h, j) := Mps.Drv.TwoParty.handle st.twoparty op inp; ({ st with twoparty := h }, j)
   | "session" => (st, Mps.Drv.Session.handle op inp)
   | "handler" | "handlerconc" => let (h, j) := Mps.Drv.Handler.handle st.handler op inp; ({ st with handler := h }, j)
   | _ => (st, jobj [("error", "unknown suite")])
